@@ -34,7 +34,7 @@ func cases(tier string) int {
 	if tier == "thorough" {
 		return 60000
 	}
-	return 1200
+	return 3200
 }
 
 type claimState struct {
